@@ -1,7 +1,11 @@
-//! Thin helpers around the real sta-rs API (the system under test).
+//! Thin helpers around the real sta-rs API (the system under test) and the
+//! shared input alphabets of DESIGN.md §5.
+use crate::mc::{fnv, guard};
 use crate::refmodel as rm;
 use ff::PrimeField;
 use num_bigint::BigUint;
+use ppoprf::ppoprf as pp;
+use sta_rs::{AssociatedData, Message, MessageGenerator, SingleMeasurement};
 use star_sharks::{Fp, FpRepr};
 
 pub fn fp_to_big(f: &Fp) -> BigUint {
@@ -9,4 +13,160 @@ pub fn fp_to_big(f: &Fp) -> BigUint {
 }
 pub fn fp_from_big(n: &BigUint) -> Option<Fp> {
   Option::from(Fp::from_repr(FpRepr(rm::le24(n))))
+}
+
+/// deterministic pseudo-random bytes (harness data, not entropy of the code under test)
+pub fn prbytes(tag: u64, len: usize) -> Vec<u8> {
+  let mut out = Vec::with_capacity(len);
+  let mut st = tag ^ 0x1234_5678_9abc_def0;
+  while out.len() < len {
+    st = st.wrapping_add(0x9E3779B97F4A7C15);
+    let mut z = st;
+    z = (z ^ (z >> 30)).wrapping_mul(0xBF58476D1CE4E5B9);
+    z = (z ^ (z >> 27)).wrapping_mul(0x94D049BB133111EB);
+    z ^= z >> 31;
+    out.extend_from_slice(&z.to_le_bytes());
+  }
+  out.truncate(len);
+  out
+}
+
+// ---------------------------------------------------------------- alphabets
+
+/// Strobe-128 rate: a payload crosses a cipher block every 166 bytes
+pub const BLOCK: usize = 166;
+
+pub fn meas_alphabet(thorough: bool) -> Vec<Vec<u8>> {
+  let mut v = vec![
+    vec![],
+    b"a".to_vec(),
+    vec![0u8],
+    vec![0xAA; 16],
+    prbytes(1, 32),
+    prbytes(2, BLOCK - 4 - 1), // 4-byte length prefix + measurement ends one byte before the block boundary
+    prbytes(3, BLOCK - 4),     // ... exactly at the boundary
+    prbytes(4, BLOCK - 4 + 1), // ... one byte past
+  ];
+  if thorough {
+    v.push(prbytes(5, BLOCK - 8)); // aux length prefix straddles the boundary
+    v.push(prbytes(6, 2 * BLOCK - 4));
+    v.push(b"hello world".to_vec());
+    v.push(vec![0xff, 0x00, 0x80, 0x7f]);
+    v.push(prbytes(7, 4096));
+  }
+  v
+}
+pub fn epoch_alphabet(thorough: bool) -> Vec<Vec<u8>> {
+  let mut v = vec![vec![], b"t".to_vec(), b"epoch".to_vec()];
+  if thorough {
+    v.push(b"tt".to_vec());
+    v.push("é".as_bytes().to_vec());
+    v.push(prbytes(9, 64));
+  }
+  v
+}
+pub fn aux_alphabet() -> Vec<Option<Vec<u8>>> {
+  vec![None, Some(vec![]), Some(vec![7]), Some(prbytes(11, 16)), Some(prbytes(12, 200)), Some(prbytes(13, 4096))]
+}
+
+// ---------------------------------------------------------------- entropy scripting
+
+#[derive(Clone, Debug, PartialEq, Eq, serde::Serialize, serde::Deserialize)]
+pub enum Ans {
+  Fresh,
+  /// 24 zero bytes, then fresh (x = 0 candidate)
+  Zeros,
+  /// 48 bytes 0xff (two candidates >= p force the rejection loop), then fresh
+  Ones,
+  /// the exact bytes entropy group j consumed (collision with client j)
+  Replay(u32),
+  /// bytes that the field's random sampler decodes to this value (decimal)
+  Craft(String),
+}
+/// Montgomery-form limbs that ff_derive's `random` turns into the element `x`
+pub fn craft_bytes(x: &BigUint) -> Vec<u8> {
+  let r = (BigUint::from(1u32) << 192usize) % rm::p();
+  rm::le24(&((x * r) % rm::p())).to_vec()
+}
+pub fn apply_answer(a: &Ans) {
+  use getrandom::verif as e;
+  match a {
+    Ans::Fresh => e::set_script(&[]),
+    Ans::Zeros => e::set_script(&[0u8; 24]),
+    Ans::Ones => e::set_script(&[0xffu8; 48]),
+    Ans::Replay(j) => e::set_script(&e::group_bytes(*j)),
+    Ans::Craft(s) => e::set_script(&craft_bytes(&s.parse::<BigUint>().unwrap())),
+  }
+}
+pub fn craft_points() -> Vec<String> {
+  let p = rm::p();
+  let one = BigUint::from(1u32);
+  vec![one.clone(), BigUint::from(2u32), &p - &one, &one << 64usize, &one << 128usize].iter().map(|x| x.to_string()).collect()
+}
+
+// ---------------------------------------------------------------- STAR client / server helpers
+
+pub fn local_randomness(meas: &[u8], epoch: &[u8], t: u32) -> [u8; 32] {
+  let mg = MessageGenerator::new(SingleMeasurement::new(meas), t, epoch);
+  let mut rnd = [0u8; 32];
+  mg.sample_local_randomness(&mut rnd);
+  rnd
+}
+
+/// full PPOPRF exchange against a randomness server (verifiable), as a client would run it
+pub fn server_randomness(server: &pp::Server, md: u8, meas: &[u8]) -> Result<[u8; 32], String> {
+  let (blinded, r) = pp::Client::blind(meas);
+  let eval = server.eval(&blinded, md, true).map_err(|e| format!("eval: {}", e))?;
+  if !pp::Client::verify(&server.get_public_key(), &blinded, &eval, md) {
+    return Err("proof does not verify".into());
+  }
+  let unblinded = pp::Client::unblind(&eval.output, &r);
+  let mut out = [0u8; 32];
+  pp::Client::finalize(meas, md, &unblinded, &mut out);
+  Ok(out)
+}
+
+pub fn gen_report(meas: &[u8], epoch: &[u8], t: u32, rnd: &[u8; 32], aux: &Option<Vec<u8>>) -> Result<Message, String> {
+  let mg = MessageGenerator::new(SingleMeasurement::new(meas), t, epoch);
+  let ad = aux.as_ref().map(|a| AssociatedData::new(a));
+  match guard(|| Message::generate(&mg, rnd, ad).map_err(|e| e.to_string())) {
+    Ok(r) => r,
+    Err(p) => Err(format!("panic: {}", p)),
+  }
+}
+
+/// what the aggregation side does with one report once it holds the recovered message
+pub fn open_report(msg: &Message, recovered: &[u8], epoch: &[u8]) -> Result<(Vec<u8>, Option<Vec<u8>>), String> {
+  guard(|| {
+    let mut key = vec![0u8; 16];
+    sta_rs::derive_ske_key(recovered, epoch, &mut key);
+    let plain = msg.ciphertext.decrypt(&key, "star_encrypt");
+    let m = sta_rs::load_bytes(&plain).ok_or("payload: measurement chunk does not parse")?;
+    let rest = &plain[4 + m.len()..];
+    if rest.is_empty() {
+      return Ok((m.to_vec(), None));
+    }
+    let a = sta_rs::load_bytes(rest).ok_or("payload: associated-data chunk does not parse")?;
+    if rest.len() != 4 + a.len() {
+      return Err("payload: trailing bytes after associated data".to_string());
+    }
+    Ok((m.to_vec(), Some(a.to_vec())))
+  })
+  .unwrap_or_else(|p| Err(format!("panic: {}", p)))
+}
+
+/// x-coordinate of the share inside a report, through the independent layout parser
+pub fn share_x(share_bytes: &[u8]) -> Option<BigUint> {
+  rm::parse_adss(share_bytes).map(|s| s.s.x)
+}
+
+pub fn recover_msg(shares: &[sta_rs::Share]) -> Result<Result<Vec<u8>, String>, String> {
+  guard(|| sta_rs::share_recover(shares).map(|c| c.get_message()).map_err(|e| e.to_string()))
+}
+
+pub fn short(b: &[u8]) -> String {
+  crate::mc::hexs(b)
+}
+pub fn hash_bytes(b: &[u8]) -> u64 {
+  fnv(b)
 }
